@@ -1,44 +1,63 @@
-// C13 (c): InterrogateDatabase::merge_from over whole (tiny) databases, both load orders.
+// C13 (c): InterrogateDatabase::merge_from over whole (tiny) databases, in a chosen load order.
 //
-// Two database "files" share a type by true name ("S"); what each file says about it is symbolic:
-//   global or not, fully defined or forward declared.  File X additionally publishes a global data element of
-//   type S, file Y additionally has the pointer type "P" wrapping S and a function wrapper returning S (cross references
-//   into the shared type) and
-//   the definitions of S carry a derivation from the second shared type "B" (a cross reference INSIDE the record
-//   that is merged) whose flags are symbolic as well.
-// The files are loaded into an empty database in both orders (concrete loop), the way InterrogateDatabase::read does
-// it: every file owns a fresh, disjoint index range and is merged with the real merge_from.
+// NFILES (2, 3 or 4) database "files" share two types by true name: "S" and its base class "B".  What each file says about
+// each of them is SYMBOLIC: global or not, fully defined or only forward declared (4 bits per file).  Besides:
+//   file X ("liba"): a global data element e of type S;
+//   file Y ("libb"): the pointer type "P" wrapping S and a function wrapper returning S and taking a P;
+//   file Z ("libc"): a global data element g of type B;
+//   file W: nothing else;
+// and in every file the record of S carries a derivation from that file's B (a cross reference INSIDE a record that is
+// merged).  The files are loaded into an empty database in the order selected by ORDER (one catalogue entry per
+// permutation), the way InterrogateDatabase::read does it: every file owns a fresh, disjoint index range (the file loaded
+// k-th gets 10k+1..) and is merged with the real merge_from.
 //
 // Oracle (the merged database is the disjoint union with equal true names identified):
 //   * exactly one type carries each shared true name, and it lives at the index it had in the file loaded first;
-//   * it is fully defined iff either file defined it, and then carries the defining file's definition;
-//   * it is global iff either file says so;
+//   * it is fully defined iff some file defines it, and then carries the definition of a file that defines it;
+//   * it is global iff some file says so;
 //   * the global-type enumeration (get_num_global_types/get_global_type) lists exactly the global types, each once;
 //     the all-types enumeration lists every type once;
-//   * every cross reference (element type, wrapped type, derivation base) points at the surviving index.
+//   * every cross reference (element type, wrapped type, return type, parameter type, derivation base) points at the
+//     surviving index.
 #include "verif.h"
 #include "interrogateDatabase.h"
 #include <string>
 #include <vector>
 
-#ifndef WITH_B
-#define WITH_B 1        // second shared type "B" (base class of S) with symbolic flags
+#ifndef NFILES
+#define NFILES 2
 #endif
-#ifndef WITH_W
-#define WITH_W 1        // file Y has a function wrapper returning S and taking a P
-#endif
-#ifndef ORDERS
-#define ORDERS 3        // bit 0: order X,Y   bit 1: order Y,X
+#ifndef ORDER
+#define ORDER 0         // index into the table of permutations below
 #endif
 
 static const int G = 1, FD = 0x2000;
+enum { FX = 0, FY = 1, FZ = 2, FW = 3 };
+
+#if NFILES == 2
+static const int PERM[2][2] = { { FX, FY }, { FY, FX } };
+#elif NFILES == 3
+static const int PERM[6][3] = { { FX, FY, FZ }, { FX, FZ, FY }, { FY, FX, FZ }, { FY, FZ, FX }, { FZ, FX, FY }, { FZ, FY, FX } };
+#else   // lexicographic, like itertools.permutations in the catalogue
+static const int PERM[24][4] = {
+    { FX, FY, FZ, FW }, { FX, FY, FW, FZ }, { FX, FZ, FY, FW }, { FX, FZ, FW, FY }, { FX, FW, FY, FZ }, { FX, FW,
+    FZ, FY }, { FY, FX, FZ, FW }, { FY, FX, FW, FZ }, { FY, FZ, FX, FW }, { FY, FZ, FW, FX }, { FY, FW, FX, FZ },
+    { FY, FW, FZ, FX }, { FZ, FX, FY, FW }, { FZ, FX, FW, FY }, { FZ, FY, FX, FW }, { FZ, FY, FW, FX }, { FZ, FW,
+    FX, FY }, { FZ, FW, FY, FX }, { FW, FX, FY, FZ }, { FW, FX, FZ, FY }, { FW, FY, FX, FZ }, { FW, FY, FZ, FX },
+    { FW, FZ, FX, FY }, { FW, FZ, FY, FX } };
+#endif
 
 struct Side { bool s_gl, s_fd, b_gl, b_fd; };
+
+// offsets of the records inside each file's index range (S and B swap places between files: other map order)
+static const int OFF_S[4] = { 0, 1, 1, 0 }, OFF_B[4] = { 1, 0, 0, 1 };
+enum { X_E = 2, Y_P = 2, Y_W = 3, Z_G = 2 };
+static const int MARK_S[4] = { 100, 200, 300, 400 }, MARK_B[4] = { 101, 201, 301, 401 };
 
 static void name1(std::string &s, char c) { s.push_back(c); }
 
 // every vector the real code appends to is given room up front, so that no append reallocates (the reallocation path of
-// an append under a symbolic condition allocates a symbolic number of bytes)
+// an append under a symbolic condition allocates a symbolic number of bytes; _M_realloc_insert is cut: must not be reached)
 static InterrogateDatabase *new_db() {
   InterrogateDatabase *db = new InterrogateDatabase;
   db->_global_types.reserve(8);
@@ -57,49 +76,35 @@ static InterrogateType *new_type(char name, int flags, int mark) {
 
 static int fl(bool gl, bool fd) { return (gl ? G : 0) | (fd ? FD : 0); }
 
-// file X ("liba"): S, [B], global element e : S.            indices base+0 .. base+2
-// file Y ("libb"): [B], S, P = pointer to S.                 indices base+0 .. base+2   (B before S here: other map order)
-enum { X_S = 0, X_B = 1, X_E = 2, Y_B = 0, Y_S = 1, Y_P = 2, Y_W = 3 };
-
-static InterrogateDatabase *file_x(int base, const Side &x) {
-  InterrogateDatabase *db = new_db();
-  InterrogateType *s = new_type('S', fl(x.s_gl, x.s_fd), 100);
-#if WITH_B
-  InterrogateType *b = new_type('B', fl(x.b_gl, x.b_fd), 101);
-  s->_derivations.resize(1);
-  s->_derivations[0]._base = base + X_B;
-  db->add_type(base + X_B, *b);
-#endif
-  db->add_type(base + X_S, *s);
+static void add_global_element(InterrogateDatabase *db, int index, char name, int type) {
   InterrogateElement *e = new InterrogateElement;
-  name1(e->_name, 'e'); name1(e->_scoped_name, 'e');
+  name1(e->_name, name); name1(e->_scoped_name, name);
   e->_flags = 1;   // global
-  e->_type = base + X_S;
-  db->add_element(base + X_E, *e);
-  return db;
+  e->_type = type;
+  db->add_element(index, *e);
 }
 
-static InterrogateDatabase *file_y(int base, const Side &y) {
+static InterrogateDatabase *make_file(int f, int base, const Side &x) {
   InterrogateDatabase *db = new_db();
-  InterrogateType *s = new_type('S', fl(y.s_gl, y.s_fd), 200);
-#if WITH_B
-  InterrogateType *b = new_type('B', fl(y.b_gl, y.b_fd), 201);
+  InterrogateType *s = new_type('S', fl(x.s_gl, x.s_fd), MARK_S[f]);
+  InterrogateType *b = new_type('B', fl(x.b_gl, x.b_fd), MARK_B[f]);
   s->_derivations.resize(1);
-  s->_derivations[0]._base = base + Y_B;
-  db->add_type(base + Y_B, *b);
-#endif
-  db->add_type(base + Y_S, *s);
-  InterrogateType *p = new_type('P', 0x100 | 0x80 | FD, 202);   // pointer | wrapped | fully defined, not global
-  p->_wrapped_type = base + Y_S;
-  db->add_type(base + Y_P, *p);
-#if WITH_W
-  InterrogateFunctionWrapper *w = new InterrogateFunctionWrapper;
-  name1(w->_name, 'w');
-  w->_return_type = base + Y_S;
-  w->_parameters.resize(1);
-  w->_parameters[0]._type = base + Y_P;
-  db->add_wrapper(base + Y_W, *w);
-#endif
+  s->_derivations[0]._base = base + OFF_B[f];
+  db->add_type(base + OFF_B[f], *b);
+  db->add_type(base + OFF_S[f], *s);
+  if (f == FX) add_global_element(db, base + X_E, 'e', base + OFF_S[f]);
+  if (f == FZ) add_global_element(db, base + Z_G, 'g', base + OFF_B[f]);
+  if (f == FY) {
+    InterrogateType *p = new_type('P', 0x100 | 0x80 | FD, 202);   // pointer | wrapped | fully defined, not global
+    p->_wrapped_type = base + OFF_S[f];
+    db->add_type(base + Y_P, *p);
+    InterrogateFunctionWrapper *w = new InterrogateFunctionWrapper;
+    name1(w->_name, 'w');
+    w->_return_type = base + OFF_S[f];
+    w->_parameters.resize(1);
+    w->_parameters[0]._type = base + Y_P;
+    db->add_wrapper(base + Y_W, *w);
+  }
   return db;
 }
 
@@ -112,17 +117,21 @@ static int count_named(InterrogateDatabase *m, char c, int &index) {
   return n;
 }
 
-static void check_shared(InterrogateDatabase *m, char c, int want_index, bool gl, bool fd, bool x_fd, bool y_fd, int x_mark, int y_mark) {
+static void check_shared(InterrogateDatabase *m, char c, int want_index, const bool *gl, const bool *fd, const int *mark) {
   int index = 0;
   int n = count_named(m, c, index);
   ASSERT(n == 1, "C13 merge_from: types with equal true name are identified (one type per true name)");
   ASSERT(index == want_index, "C13 merge_from: a shared type keeps the index of the file loaded first");
   const InterrogateType &t = m->get_type(want_index);
-  ASSERT(t.is_fully_defined() == fd, "C13 merge_from: a shared type is fully defined iff some loaded file defines it");
-  ASSERT(t.is_global() == gl, "C13 merge_from: global-ness of a shared type is the union over the loaded files");
-  if (x_fd && !y_fd) ASSERT(t._array_size == x_mark, "C13 merge_from: the fully defined definition wins");
-  if (y_fd && !x_fd) ASSERT(t._array_size == y_mark, "C13 merge_from: the fully defined definition wins");
-  ASSERT(t._array_size == x_mark || t._array_size == y_mark, "C13 merge_from: the merged type carries one of the two definitions");
+  bool any_gl = false, any_fd = false, of_a_file = false, of_a_defining_file = false;
+  for (int f = 0; f < NFILES; f++) {
+    any_gl = any_gl || gl[f]; any_fd = any_fd || fd[f];
+    if (t._array_size == mark[f]) { of_a_file = true; if (fd[f]) of_a_defining_file = true; }
+  }
+  ASSERT(t.is_fully_defined() == any_fd, "C13 merge_from: a shared type is fully defined iff some loaded file defines it");
+  ASSERT(t.is_global() == any_gl, "C13 merge_from: global-ness of a shared type is the union over the loaded files");
+  ASSERT(of_a_file, "C13 merge_from: the merged type carries the definition of one of the files");
+  if (any_fd) ASSERT(of_a_defining_file, "C13 merge_from: the fully defined definition wins");
 }
 
 // (own function: nested loops accumulate their unwind counts)
@@ -133,34 +142,34 @@ static void __attribute__((noinline)) occurrences(InterrogateDatabase *m, int in
   }
 }
 
-static void __attribute__((noinline)) scenario(int order, const Side &x, const Side &y) {
-  // the file loaded first owns indices 1.., the second one 11.. (read() hands every file a fresh range)
-  int xb = order == 0 ? 1 : 11, yb = order == 0 ? 11 : 1;
-  InterrogateDatabase *fx = file_x(xb, x);
-  InterrogateDatabase *fy = file_y(yb, y);
+static void __attribute__((noinline)) scenario(const int *perm, const Side *side) {
+  // the file loaded k-th owns indices 10k+1.. (read() hands every file a fresh range)
+  int base[4] = { 0, 0, 0, 0 };
   InterrogateDatabase *m = new_db();
-  if (order == 0) { m->merge_from(*fx); m->merge_from(*fy); }
-  else            { m->merge_from(*fy); m->merge_from(*fx); }
+  for (int k = 0; k < NFILES; k++) {
+    int f = perm[k];
+    base[f] = 10 * k + 1;
+    m->merge_from(*make_file(f, base[f], side[f]));
+  }
 
-  int s = order == 0 ? xb + X_S : yb + Y_S;     // survivors: the index in the file loaded first
-  int b = order == 0 ? xb + X_B : yb + Y_B;
-  int p = yb + Y_P, e = xb + X_E;
-  int ntypes = WITH_B ? 3 : 2;
+  int first = perm[0];
+  int s = base[first] + OFF_S[first], b = base[first] + OFF_B[first];     // survivors: the index in the file loaded first
+  int p = base[FY] + Y_P;
+  bool s_gl[4], s_fd[4], b_gl[4], b_fd[4];
+  for (int f = 0; f < NFILES; f++) { s_gl[f] = side[f].s_gl; s_fd[f] = side[f].s_fd; b_gl[f] = side[f].b_gl; b_fd[f] = side[f].b_fd; }
 
-  ASSERT((int)m->_type_map.size() == ntypes, "C13 merge_from: the merged database has one type per distinct true name");
-  check_shared(m, 'S', s, x.s_gl || y.s_gl, x.s_fd || y.s_fd, x.s_fd, y.s_fd, 100, 200);
-#if WITH_B
-  check_shared(m, 'B', b, x.b_gl || y.b_gl, x.b_fd || y.b_fd, x.b_fd, y.b_fd, 101, 201);
-#endif
+  ASSERT((int)m->_type_map.size() == 3, "C13 merge_from: the merged database has one type per distinct true name");
+  check_shared(m, 'S', s, s_gl, s_fd, MARK_S);
+  check_shared(m, 'B', b, b_gl, b_fd, MARK_B);
   int pi = 0;
   ASSERT(count_named(m, 'P', pi) == 1 && pi == p, "C13 merge_from: a type only one file knows is carried over at its own index");
 
   // enumerations: every type once in the all-types list; exactly the global ones, once each, in the global list
   int idx[3] = { s, p, b };
   int nall = m->get_num_all_types(), nglob = m->get_num_global_types();
-  ASSERT(nall == ntypes, "C13 merge_from: get_num_all_types counts every type of the merged database once");
+  ASSERT(nall == 3, "C13 merge_from: get_num_all_types counts every type of the merged database once");
   int want_glob = 0;
-  for (int i = 0; i < ntypes; i++) {
+  for (int i = 0; i < 3; i++) {
     int in_all = 0, in_glob = 0;
     occurrences(m, idx[i], nall, nglob, in_all, in_glob);
     bool gl = m->get_type(idx[i]).is_global();
@@ -170,38 +179,28 @@ static void __attribute__((noinline)) scenario(int order, const Side &x, const S
   }
   ASSERT(nglob == want_glob, "C13 merge_from: get_num_global_types == number of global types");
 
-  // cross references follow the shared type to the surviving index
-  ASSERT(m->get_element(e)._type == s, "C13 merge_from: an element's type reference points at the surviving shared type");
-  ASSERT(m->get_num_global_elements() == 1 && m->get_global_element(0) == e, "C13 merge_from: global elements are carried over");
+  // cross references follow the shared types to the surviving indices
+  ASSERT(m->get_element(base[FX] + X_E)._type == s, "C13 merge_from: an element's type reference points at the surviving shared type");
+#if NFILES >= 3
+  ASSERT(m->get_element(base[FZ] + Z_G)._type == b, "C13 merge_from: an element's type reference points at the surviving shared type");
+#endif
+  ASSERT(m->get_num_global_elements() == (NFILES >= 3 ? 2 : 1), "C13 merge_from: global elements are carried over");
   ASSERT(m->get_type(p)._wrapped_type == s, "C13 merge_from: a wrapped-type reference points at the surviving shared type");
-#if WITH_W
-  const InterrogateFunctionWrapper &w = m->get_wrapper(yb + Y_W);
+  const InterrogateFunctionWrapper &w = m->get_wrapper(base[FY] + Y_W);
   ASSERT(w._return_type == s, "C13 merge_from: a function's return type points at the surviving shared type");
   ASSERT(w._parameters.size() == 1 && w._parameters[0]._type == p, "C13 merge_from: a parameter type that only one file knows keeps its index");
-#endif
-#if WITH_B
   const InterrogateType &st = m->get_type(s);
   ASSERT(st._derivations.size() == 1 && st._derivations[0]._base == b,
          "C13 merge_from: a derivation inside the merged definition points at the surviving base type");
-#endif
-}
-
-static void sym_side(Side &s) {
-  s.s_gl = nondet_bool(); s.s_fd = nondet_bool();
-#if WITH_B
-  s.b_gl = nondet_bool(); s.b_fd = nondet_bool();
-#else
-  s.b_gl = s.b_fd = false;
-#endif
 }
 
 extern "C" void harness_c13_merge_from() {
   __ll2c_global_ctors();
-  for (int order = 0; order < 2; order++) {
-    if (!((ORDERS >> order) & 1)) continue;
-    Side x, y;
-    sym_side(x); sym_side(y);
-    scenario(order, x, y);
+  Side side[4];
+  for (int f = 0; f < NFILES; f++) {
+    side[f].s_gl = nondet_bool(); side[f].s_fd = nondet_bool();
+    side[f].b_gl = nondet_bool(); side[f].b_fd = nondet_bool();
   }
+  scenario(PERM[ORDER], side);
   WITNESS();
 }
